@@ -1200,6 +1200,11 @@ def _might_have_parameter(fn_or_cls, arg_name):
 
   while hasattr(fn, '__wrapped__'):
     fn = fn.__wrapped__
+  if fn in (object.__init__, object.__new__):
+    # A class that defines neither `__init__` nor `__new__` takes no arguments
+    # (the `*args, **kwargs` in the signature of `object.__init__` are there for
+    # cooperative subclasses only).
+    return False
   arg_spec = _get_cached_arg_spec(fn)
   if arg_spec.varkw:  # pytype: disable=attribute-error
     return True
